@@ -44,9 +44,11 @@ TRUSTED_BASE = [
     "Lean 4.33.0 kernel (thorough tier additionally re-checks the .olean files with leanchecker)",
     "axioms: subset of {propext, Classical.choice, Quot.sound}, audited per theorem on this run; no native_decide/bv_decide/sorry",
     "Mathlib v4.33.0 as compiled on this image (definitions of R, HasDerivAt, exp/log, Finset.sum, Matrix)",
-    "tools/gen_tables.py (translator of repo data files into lean/Generated, re-run on this run)",
+    "tools/gen_tables.py + tools/gens/*.py (ast-based translators of repo data files, expressions and glue code into lean/Generated, re-run on this run; "
+    "their grammars and canonical-text pins are trusted to extract what the source says; the interpreters of the extracted descriptions in lean/CijModel/*Glue*.lean, "
+    "*Src.lean, *Expr.lean give them their numpy/Python meaning and are trusted as semantics, validated by the correspondence run)",
     "harness/*.py + lean/Driver.lean (correspondence check: differential testing of the model against the real code; strength bounded by the generators, distribution recorded here)",
-    "cij's Python source itself is modelled, not verified: tied to the model by the correspondence run only",
+    "cij's Python source itself is modelled, not verified: tied to the model by the translators (statement by statement where a *_is_source theorem says so) and by the correspondence run",
     "contracts of numpy/scipy/pandas/pint/networkx/qha/jsonschema/yaml are assumptions (measured per case where stated)",
     "floating-point rounding is outside every theorem (theorems are over R, Q or finite domains)",
 ]
